@@ -51,6 +51,10 @@ CHECKS = {
    "rapid-generated families of named types (embedding graphs with value/pointer embedding and shadowing, value/pointer receivers, exported/unexported methods) and interfaces; every (dynamic value, interface) and (dynamic value, concrete type) pair is probed (assertions, calls with receiver logging and dumps afterwards, type-switch position, interface equality, map keys) plus static selectors, method values and method expressions for every method in the go/types method sets, and fixed probes for type identity across functions and packages; compared with the native run",
    "trusts the native Go toolchain as reference; go/types is used only to decide which static selectors are valid Go",
    "property-based differential testing of generated type families (rapid) with native Go as oracle"),
+ "C01": ("exploration",
+   "rapid-generated single-goroutine Go programs (progen) covering the statement and expression forms of the language subset, bundled several scenarios per build and run one process per scenario in both worlds; trace lines and the way each scenario ends (exit, panic with message, run-time error class, deadlock) are compared with the reference toolchain; every emitted file must pass node --check and no build may fail",
+   "trusts the native Go toolchain as reference; generated programs obey the documented differences (int stays inside 32 bits, println only with ASCII strings, no negative shifts) and avoid what the spec leaves open; the known finding C01-evalorder is excluded by construction (side-effecting calls are statements of their own)",
+   "property-based differential testing of generated programs (rapid) with native Go as oracle"),
 }
 PENDING_REASON = "check not built yet in this session (work in progress; see DESIGN.md §8 for the order)"
 props=[json.loads(l)['id'] for l in open('/verif/properties.jsonl')]
